@@ -46,11 +46,11 @@ def local_rounds(rnd, label):
 
 def run(ctx):
     rnd = random.Random(ctx.seed)
-    n = 360 if ctx.quick else 6000
+    n = 360 if ctx.quick else 1800
     scens = [gl.history(rnd, "h%d" % i, steps=rnd.randint(4, 9), with_construct=False) for i in range(n)]
     scens += [scale_history(rnd, "s%d" % i) for i in range(n // 3)]
     scens += [local_rounds(rnd, "l%d" % i) for i in range(n // 3)]
-    gen = gl.mc_and_scripts(ctx, ['seq', 'localp1', 'localp2', 'wavelet', 'globalleja', 'fourier'], rnd, 150 if ctx.quick else 3000, maxlen=None if ctx.quick else 5, genlen=3 if ctx.quick else 4, mc=True)
+    gen = gl.mc_and_scripts(ctx, ['seq', 'localp1', 'localp2', 'wavelet', 'globalleja', 'fourier'], rnd, 150 if ctx.quick else 1000, maxlen=None if ctx.quick else 5, genlen=3 if ctx.quick else 4, mc=True)
     gl.run_grid(ctx, gen + [("hist", scens), ("mixed", gl.mixed_family(rnd, max(40, n // 5)))], gl.OBS_NODAL, "C07")
     ctx.assume("flagged sets are derived by the spec from logged normalised coefficient ratios (observer); tolerances are placed between distinct ratios")
 
